@@ -76,7 +76,8 @@ def tasks(tier, seed):
     for det in ("cmos", "mkid", "apd"):
         for n in ((2,) if tier == "quick" else (2, 3, 4)):
             out.append({"fn": "nondestructive", "kwargs": {"models": "uniform", "n": n, "tier": tier, "detector": det}, "label": f"nondestructive/uniform,n={n}/{det}", "logic": "QF_NRA", "caps": {"max_seconds": 300, "solver_timeout_ms": 30000}})
-        out.append({"fn": "destructive", "kwargs": {"models": "uniform", "n": 2, "tier": tier, "detector": det}, "label": f"destructive/uniform,n=2/{det}", "logic": "QF_NRA", "caps": {"max_seconds": 300, "solver_timeout_ms": 30000}})
+        out.append({"fn": "destructive", "kwargs": {"models": "uniform", "n": 2, "tier": tier, "detector": det}, "label": f"destructive/uniform,n=2/{det}", "logic": "QF_NRA",
+                    "caps": {"max_seconds": 90, "solver_timeout_ms": 10000} if tier == "quick" else {"max_seconds": 600, "solver_timeout_ms": 60000}})
     if tier == "thorough":
         # symbolic time scales also for the image / charge loaders (division by a symbolic scale: slow, may be inconclusive)
         for ms in ("charge", "image"):
